@@ -13,11 +13,12 @@
 (*                                      (nothing else touched: the structure   *)
 (*                                      becomes inconsistent)                  *)
 (*               SetTag(n, t)           first identifier octet replaced        *)
-(*               Delete(n) Duplicate(n) Nest(n, d) Clear(n) Indef(n)           *)
+(*               Delete(n) Duplicate(n) Nest(n, d) Clear(n) Indef(n) Resize(n) *)
 (*                                      node n replaced by nothing | itself    *)
 (*                                      twice | itself inside d SEQUENCEs |    *)
 (*                                      an empty value | its indefinite-length *)
-(*                                      BER form; the lengths of all enclosing *)
+(*                                      BER form | a value of 1, 2, cl-1, cl+1 *)
+(*                                      octets; the lengths of all enclosing   *)
 (*                                      nodes are RE-ENCODED so that the result *)
 (*                                      is again well-formed and reaches the   *)
 (*                                      code behind the outer parser           *)
@@ -86,6 +87,11 @@ Duplicate(b, ns, i) == Splice(b, ns, i, Tlv(b, ns[i]) \o Tlv(b, ns[i]))
 Nest(b, ns, i, d)   == Splice(b, ns, i, WrapN(Tlv(b, ns[i]), d))
 Clear(b, ns, i)     == Splice(b, ns, i, TagBytes(b, ns[i]) \o <<0>>)
 Indef(b, ns, i)     == Splice(b, ns, i, TagBytes(b, ns[i]) \o <<128>> \o Content(b, ns[i]) \o <<0, 0>>)
+(* contents cut to their first k octets / extended by one octet, consistently re-encoded (a value of the wrong size) *)
+Resize(b, ns, i, k) == LET c == Content(b, ns[i])
+                           c2 == IF k <= Len(c) THEN SubSeq(c, 1, k) ELSE c \o <<0>>
+                       IN Splice(b, ns, i, TagBytes(b, ns[i]) \o LenOctets(Len(c2)) \o c2)
+ResizeTo(n) == {k \in {1, 2, n.cl - 1, n.cl + 1} : k >= 1 /\ k # n.cl}
 
 (* position classes for the evidence (what kind of place a byte-level mutation hit) *)
 Innermost(ns, p) == LET js == SelectSeq([k \in 1..Len(ns) |-> k], LAMBDA j : ns[j].off <= p /\ p < W!End(ns[j]))
